@@ -209,8 +209,13 @@ def block_strategy(D, max_blocks=7):
         kind = D.choice(['chunk', 'prose', 'chunk', 'blank', 'tag'])
         if kind == 'blank' or (kind in ('prose', 'tag') and state in ('src', 'want')):
             if state in ('src', 'want') and I > B and kind == 'prose' and D.bool():
-                # a de-indented line terminates source / want
-                blocks.append({'kind': 'prose', 'lines': [[D.choice(WORDS), B]]})
+                # a de-indented line terminates source / want - also when, counted from the prompt's column, it reads
+                # like a prompt ("Try >>> help(x)" under an example indented by four)
+                word = D.choice(WORDS)
+                if D.chance(1, 3):
+                    word = ('Try it' * 3)[:I - B - 1] + ' ' + D.choice(['>>> help(thing)', '... and so on', '>>> 1 +', '...'])
+                    feats.add('dedent_terminator_with_prompt_at_column')
+                blocks.append({'kind': 'prose', 'lines': [[word, B]]})
                 state = 'text'
                 feats.add('dedent_terminator')
                 continue
